@@ -1427,6 +1427,10 @@ fn generate(tier: &str, seed: u64) -> (Vec<String>, BTreeMap<String, u64>) {
     for v in PT_VARIANTS {
         g.s("pake1-variants", &[vec![open_b.clone(), "req:1:ok:s".into(), format!("p1:1:1:{}:s", v)], sv(&["p3:1:own:s", "ack:1", "req:2:ok:s"])].concat());
     }
+    // an attacker who sends an unusable share and then the all-zero confirmation (what an unset cA would be)
+    for v in ["ident0", "ident4", "offc", "xrange", "fmt", "short", "notlv", "wrongtag"] {
+        g.s("invalid-share-then-zero-confirmation", &[vec![open_b.clone(), "req:1:ok:s".into(), format!("p1:1:1:{}:s", v)], sv(&["p3:1:zero:s", "ack:1", "req:2:ok:s"])].concat());
+    }
     for v in CA_VARIANTS {
         g.s("pake3-variants", &[vec![open_b.clone()], sv(&["req:1:ok:s", "p1:1:1:own:s"]), vec![format!("p3:1:{}:s", v)], sv(&["ack:1", "req:2:ok:s"])].concat());
     }
